@@ -5,6 +5,9 @@ import (
 	"runtime"
 	"strings"
 	"time"
+
+	"github.com/janelia-flyem/dvid/datastore"
+	"github.com/janelia-flyem/dvid/dvid"
 )
 
 // c08.quiesce: waits until no goroutine of the process is executing code of the labelmap data type or
@@ -78,4 +81,123 @@ func labelmapFrame(dump string) string {
 		}
 	}
 	return ""
+}
+
+// c14.idlewatch: runs one write request in a goroutine and, while it is in flight, samples the instance at every
+// moment it REPORTS ITSELF IDLE (Updating()==false && AnyScaleUpdating()==false, the flags datastore.BlockOnUpdating
+// and downres.BlockOnUpdating poll): a level-n read followed by a level-n+1 read, kept when the idle report still
+// holds after both reads.  The driver decides whether level n+1 is the vote over level n.
+//
+//	args:   {"uuid","name","method","url","body"(base64),"lo_url","hi_url","max_samples"}
+//	result: {"status","resp","samples":[{"lo","hi","in_flight"}], "idle_polls", "busy_polls"}
+//
+// c08.ackprobe: runs one write request synchronously and, immediately after it has been acknowledged, reports whether
+// the instance says idle while goroutines of the labelmap package are still applying that write.
+//
+//	args:   {"uuid","name","method","url","body"}
+//	result: {"status","idle_flags":bool,"running":"function name or empty"}
+func init() {
+	type wargs struct {
+		UUID       string `json:"uuid"`
+		Name       string `json:"name"`
+		Method     string `json:"method"`
+		URL        string `json:"url"`
+		Body       []byte `json:"body"`
+		LoURL      string `json:"lo_url"`
+		HiURL      string `json:"hi_url"`
+		MaxSamples int    `json:"max_samples"`
+	}
+	idle := func(uuid, name string) (func() bool, error) {
+		d, err := datastore.GetDataByUUIDName(dvid.UUID(uuid), dvid.InstanceName(name))
+		if err != nil {
+			return nil, err
+		}
+		return func() bool {
+			if u, ok := d.(updatingFlag); ok && u.Updating() {
+				return false
+			}
+			if u, ok := d.(scaleUpdater); ok && u.AnyScaleUpdating() {
+				return false
+			}
+			return true
+		}, nil
+	}
+	APIs["c14.idlewatch"] = func(args json.RawMessage) (interface{}, error) {
+		var a wargs
+		if err := json.Unmarshal(args, &a); err != nil {
+			return nil, err
+		}
+		isIdle, err := idle(a.UUID, a.Name)
+		if err != nil {
+			return nil, err
+		}
+		if a.MaxSamples <= 0 {
+			a.MaxSamples = 4
+		}
+		done := make(chan Resp, 1)
+		go func() { done <- Do(a.Method, a.URL, a.Body, nil) }()
+		type sample struct {
+			Lo       []byte `json:"lo"`
+			Hi       []byte `json:"hi"`
+			InFlight bool   `json:"in_flight"`
+		}
+		var samples []sample
+		idlePolls, busyPolls := 0, 0
+		var resp Resp
+		finished := false
+		for !finished {
+			select {
+			case resp = <-done:
+				finished = true
+				continue
+			default:
+			}
+			if !isIdle() {
+				busyPolls++
+				runtime.Gosched()
+				continue
+			}
+			idlePolls++
+			if len(samples) >= a.MaxSamples {
+				time.Sleep(200 * time.Microsecond)
+				continue
+			}
+			lo := Do("GET", a.LoURL, nil, nil)
+			hi := Do("GET", a.HiURL, nil, nil)
+			still := isIdle()
+			inFlight := true
+			select {
+			case resp = <-done:
+				finished = true
+				inFlight = false
+			default:
+			}
+			if still && inFlight && lo.Status == 200 && hi.Status == 200 {
+				// keep only samples whose level-n content differs from the previous kept sample
+				if len(samples) == 0 || string(samples[len(samples)-1].Lo) != string(lo.Body) {
+					samples = append(samples, sample{lo.Body, hi.Body, inFlight})
+				}
+			}
+		}
+		return map[string]interface{}{"status": resp.Status, "resp": string(resp.Body), "samples": samples, "idle_polls": idlePolls, "busy_polls": busyPolls}, nil
+	}
+	APIs["c08.ackprobe"] = func(args json.RawMessage) (interface{}, error) {
+		var a wargs
+		if err := json.Unmarshal(args, &a); err != nil {
+			return nil, err
+		}
+		isIdle, err := idle(a.UUID, a.Name)
+		if err != nil {
+			return nil, err
+		}
+		resp := Do(a.Method, a.URL, a.Body, nil)
+		flags := isIdle()
+		buf := make([]byte, 1<<20)
+		n := runtime.Stack(buf, true)
+		for n == len(buf) {
+			buf = make([]byte, 2*len(buf))
+			n = runtime.Stack(buf, true)
+		}
+		return map[string]interface{}{"status": resp.Status, "idle_flags": flags, "running": labelmapFrame(string(buf[:n]))}, nil
+	}
 }
